@@ -6,7 +6,7 @@ A feature has a ``plain`` template (list of lines, relative indentation by leadi
   plain:  {R1:a}      read site R1 of variable a       {R1:a@s} read inside nested scope "s" of this feature
           {B1:a}      binding identifier B1 of a       {B1:a@s} binding inside nested scope "s"
                       optional construct kind: {B1:a/kwonly-param}
-  instr:  {R1}        -> _u(<id of R1>, a, a__s)        {d1} -> <site id of B1>   {v1} -> variable of B1
+  instr:  {R1}        -> _u(<id of R1>, a, a__s)        {d1} -> <site id of B1>   {v1} -> variable of B1   {r1} -> <id of R1>
 
 Instr lines starting with '?L ' are emitted in lenient mode only, '?S ' in strict mode only.
 ``binds`` lists the names the feature binds in the ENCLOSING scope (for lenient pre-binding).
@@ -22,7 +22,7 @@ def feature(name, plain, instr, binds=(), c02=False, c03=False, needs=(), note='
 
 
 _PM = re.compile(r'\{([RB])(\w+):(\w+)(?:@(\w+))?(?:/([\w-]+))?\}')
-_IM = re.compile(r'\{([Rdv])(\w+)\}')
+_IM = re.compile(r'\{([Rrdv])(\w+)\}')
 
 
 def render(R, s, ind, scope):
@@ -78,6 +78,8 @@ def render(R, s, ind, scope):
             if kind == 'R':
                 rid, v = labels['R' + lab]
                 return '_u(%d, %s, %s__s)' % (rid, v, v)
+            if kind == 'r':
+                return str(labels['R' + lab][0])     # the bare read id (site supplied by the template)
             did, v = labels['B' + lab]
             return str(did) if kind == 'd' else v
         R.emit(ind, _IM.sub(rep, line))
@@ -135,6 +137,46 @@ feature('for-starred-target',
         ['for {B1:$X/for-target}, *{B2:$Y/for-target} in _it((0, 0)):', '    {R1:$Y}', 'else:', '    {R2:$X}'],
         ['for $X, *$Y in _it((0, 0)):', '    $X__s = {d1}; $Y__s = {d2}', '    {R1}', 'else:', '    {R2}'],
         binds='ab', c02=True, c03=True)
+# targets that are not names (subscript / attribute) and read a name while being assigned
+feature('for-tuple-subscript-target',
+        ['for {B1:$X/for-target}, _id([0], {R1:$Y})[0] in _it((0, 0)):', '    {R2:$X}', '{R3:$Y}'],
+        ['for $X, _id([0], {R1})[0] in _it((0, 0)):', '    $X__s = {d1}', '    {R2}', '{R3}'], binds='$X', c02=True, c03=True)
+feature('for-tuple-attr-target',
+        ['for _id(_mk(), {R1:$Y}).v, {B1:$X/for-target} in _it((0, 0)):', '    {R2:$X}'],
+        ['for _id(_mk(), {R1}).v, $X in _it((0, 0)):', '    $X__s = {d1}', '    {R2}'], binds='$X', c02=True, c03=True)
+feature('for-subscript-target',
+        ['for _id([0], {R1:$X})[0] in _it(0):', '    {R2:$X}'],
+        ['for _id([0], {R1})[0] in _it(0):', '    {R2}'], c02=True, c03=True)
+feature('for-nested-tuple-attr-target',
+        ['for q, (_id(_mk(), {R1:$X}).v, *_id([0], {R2:$Y})[0:1]) in _it((0, (0, 0))):', '    pass'],
+        ['for q, (_id(_mk(), {R1}).v, *_id([0], {R2})[0:1]) in _it((0, (0, 0))):', '    pass'], c02=True, c03=True)
+feature('for-target-reads-earlier-element',
+        ['for {B1:$X/for-target}, _id([0], {R1:$X})[0] in _it((0, 0)):', '    {R2:$X}'],
+        ['for $X, _id([0], ($X__s := {d1}), {R1})[0] in _it((0, 0)):', '    {R2}'], binds='$X', c02=True, c03=True)
+feature('comp-tuple-subscript-target',
+        ['zz = [0 for q, _id([0], {R1:$X})[0] in _it((0, 0))]', '{R2:$X}'],
+        ['zz = [0 for q, _id([0], {R1})[0] in _it((0, 0))]', '{R2}'], c02=True, c03=True)
+feature('comp-target-reads-earlier-element',
+        ['zz = [0 for {B1:$X@c/comp-target}, _id([0], {R1:$X@c})[0] in _it((0, 0))]'],
+        ['zz = [0 for $X, _id([0], _u({r1}, $X, {d1}))[0] in _it((0, 0))]'], c02=True, c03=True)
+feature('with-target-reads-earlier-element',
+        ['with _cm((0, 0)) as ({B1:$X/with-target}, _id([0], {R1:$X})[0]):', '    {R2:$X}'],
+        ['with _cm((0, 0)) as ($X, _id([0], ($X__s := {d1}), {R1})[0]):', '    {R2}'], binds='$X', c02=True, c03=True)
+feature('for-subscript-target-reads-loop-carried',
+        ['for _id([0], {R1:$X})[0] in _it(0):', '    {B1:$X/assign} = 1', '{R2:$X}'],
+        ['for _id([0], {R1})[0] in _it(0):', '    $X = 1; $X__s = {d1}', '{R2}'], binds='$X', c02=True, c03=True)
+feature('with-tuple-subscript-target',
+        ['with _cm((0, 0)) as ({B1:$X/with-target}, _id([0], {R1:$Y})[0]):', '    {R2:$X}'],
+        ['with _cm((0, 0)) as ($X, _id([0], {R1})[0]):', '    $X__s = {d1}', '    {R2}'], binds='$X', c02=True, c03=True)
+feature('with-attr-target',
+        ['with _cm() as _id(_mk(), {R1:$X}).v:', '    {R2:$X}'],
+        ['with _cm() as _id(_mk(), {R1}).v:', '    {R2}'], c02=True, c03=True)
+feature('assign-tuple-subscript-target',
+        ['{B1:$X/assign}, _id([0], {R1:$Y})[0] = 0, 0', '{R2:$X}'],
+        ['$X, _id([0], {R1})[0] = 0, 0; $X__s = {d1}', '{R2}'], binds='$X', c02=True, c03=True)
+feature('augassign-subscript-target',
+        ['_id([0], {R1:$X})[0] += 1', '_id(_mk(), {R2:$Y}).v: int = 0'],
+        ['_id([0], {R1})[0] += 1', '_id(_mk(), {R2}).v: int = 0'], c02=True, c03=True)
 feature('with-tuple-target',
         ['with _cm((0, 0)) as ({B1:$X/with-target}, {B2:$Y/with-target}):', '    {R1:$X}', '{R2:$Y}'],
         ['with _cm((0, 0)) as ($X, $Y):', '    $X__s = {d1}; $Y__s = {d2}', '    {R1}', '{R2}'],
